@@ -31,43 +31,53 @@ Qed.
 
 Lemma call_precedence_spec cbs c :
   let p := call_precedence lower cbs c in
-  (forall x, In x (fst p) -> In x (ids cbs) /\ x <> cid c) /\
-  (forall x, In x (snd p) -> In x (ids cbs) /\ x <> cid c).
+  (forall x, In x (fst p) -> In x (ids cbs)) /\
+  (forall x, In x (snd p) -> In x (ids cbs)).
 Proof.
   unfold call_precedence.
   destruct (N.eqb (ckind c) 1); [|destruct (N.eqb (ckind c) 2)]; simpl.
-  - split; [intros x []|apply others_in].
-  - split; [apply others_in|intros x []].
-  - destruct (mem (cid c) (resolve lower cbs (cbefore c)) || mem (cid c) (resolve lower cbs (cafter c))) eqn:E; simpl.
-    + split; intros x [].
-    + apply orb_false_iff in E as [E1 E2]. apply mem_false in E1, E2.
-      split; intros x Hx; (split; [eapply resolve_in; eauto|intro; subst; contradiction]).
+  - split; [intros x []|intros x Hx; apply (others_in cbs c x Hx)].
+  - split; [intros x Hx; apply (others_in cbs c x Hx)|intros x []].
+  - split; intros x Hx; eapply resolve_in; eauto.
 Qed.
 
-Lemma edges_of_cb_ok cbs c : edges_of_cb lower cbs c = Ok (edges_pure cbs c).
+(* a callback that resolves one of its own callBefore/callAfter names to itself *)
+Definition selfref_b (cbs : list cb) (c : cb) : bool :=
+  mem (cid c) (snd (call_precedence lower cbs c)) || mem (cid c) (fst (call_precedence lower cbs c)).
+
+Lemma edges_of_cb_cases cbs c :
+  edges_of_cb lower cbs c = if selfref_b cbs c then Raise AssertionError else Ok (edges_pure cbs c).
 Proof.
-  unfold edges_of_cb, edges_pure. destruct (call_precedence_spec cbs c) as [Hb Ha].
-  destruct (call_precedence lower cbs c) as [b a]. simpl in *.
-  destruct (mem (cid c) a) eqn:E1.
-  { apply mem_In in E1. destruct (Ha _ E1). congruence. }
-  destruct (mem (cid c) b) eqn:E2.
-  { apply mem_In in E2. destruct (Hb _ E2). congruence. }
-  reflexivity.
+  unfold edges_of_cb, edges_pure, selfref_b.
+  destruct (call_precedence lower cbs c) as [b a]. simpl.
+  destruct (mem (cid c) a); [reflexivity|]. destruct (mem (cid c) b); reflexivity.
 Qed.
 
-Lemma all_edges_ok cbs l : all_edges lower cbs l = Ok (flat_map (edges_pure cbs) l).
+Lemma all_edges_cases cbs l :
+  all_edges lower cbs l =
+  if existsb (selfref_b cbs) l then Raise AssertionError else Ok (flat_map (edges_pure cbs) l).
 Proof.
   induction l as [|c l IH]; simpl; [reflexivity|].
-  rewrite edges_of_cb_ok, IH. reflexivity.
+  rewrite edges_of_cb_cases, IH. destruct (selfref_b cbs c); simpl; [reflexivity|].
+  destruct (existsb (selfref_b cbs) l); reflexivity.
 Qed.
 
-Lemma declared_edges_src all a b : In (a, b) (declared_edges all) -> In a (ids all) /\ In b (ids all) /\ a <> b.
+Lemma declared_edges_src all a b : In (a, b) (declared_edges all) -> In a (ids all) /\ In b (ids all).
 Proof.
   unfold declared_edges. intro H. apply in_flat_map in H as [c [Hc H]].
   unfold edges_pure in H. destruct (call_precedence_spec all c) as [Hb Ha].
   apply in_app_iff in H as [H|H]; apply in_map_iff in H as [o [Eo Ho]]; inversion Eo; subst.
-  - destruct (Hb _ Ho). split; [assumption|]. split; [apply in_map; exact Hc|assumption].
-  - destruct (Ha _ Ho). split; [apply in_map; exact Hc|]. split; [assumption|congruence].
+  - split; [apply Hb; exact Ho|apply in_map; exact Hc].
+  - split; [apply in_map; exact Hc|apply Ha; exact Ho].
+Qed.
+
+(* a self-reference is an edge from the callback to itself *)
+Lemma selfref_edge all c : In c all -> selfref_b all c = true -> In (cid c, cid c) (declared_edges all).
+Proof.
+  intros Hc Hs. unfold declared_edges. apply in_flat_map. exists c. split; [exact Hc|].
+  unfold edges_pure, selfref_b in *. apply orb_true_iff in Hs as [Hs|Hs]; apply mem_In in Hs; apply in_app_iff.
+  - right. apply in_map_iff. exists (cid c). auto.
+  - left. apply in_map_iff. exists (cid c). auto.
 Qed.
 
 (* ---------- the result of addCallback, for every oracle ---------- *)
@@ -79,44 +89,57 @@ Definition sorted_ok (all r : list cb) : Prop :=
   Permutation r all /\
   forall a b, In (a, b) (declared_edges all) -> (idx a (ids r) < idx b (ids r))%nat.
 
+Lemma sort_callbacks_spec all :
+  NoDup (ids all) ->
+  match sort_callbacks lower orc all with
+  | Ok r => existsb (selfref_b all) all = false /\ sorted_ok all r
+  | Raise e => e = AssertionError
+  end.
+Proof.
+  intros Hnd. unfold sort_callbacks. rewrite all_edges_cases.
+  destruct (existsb (selfref_b all) all) eqn:Es; [reflexivity|]. fold (declared_edges all).
+  destruct (sort_loop_spec orc Horc all Hnd (declared_edges all) (S (length all)) [] (declared_edges all))
+    as [done [edges [Es' [HI HF]]]].
+  { apply Inv_init. } { simpl. lia. }
+  rewrite Es'. destruct (Nat.eqb (length done) (length all)) eqn:El; [|reflexivity].
+  apply Nat.eqb_eq in El. split; [reflexivity|]. split.
+  - eapply Inv_full_perm; eauto.
+  - intros a b Hab. eapply Inv_full_edges; eauto. apply (declared_edges_src all a b Hab).
+Qed.
+
 Lemma add_callback_spec cbs c :
   NoDup (ids (cbs ++ [c])) ->
   let all := cbs ++ [c] in
   match add_callback lower orc cbs c with
   | (r, Ok _) => get_callback lower cbs (cname c) = None /\ sorted_ok all r
-  | (r, Raise e) =>
-      e = AssertionError /\
-      ((get_callback lower cbs (cname c) <> None /\ r = cbs) \/
-       (get_callback lower cbs (cname c) = None /\ r = all))
+  | (r, Raise e) => e = AssertionError /\ r = cbs
   end.
 Proof.
   intros Hnd all. unfold add_callback.
-  destruct (get_callback lower cbs (cname c)) as [d|] eqn:Eg.
-  { split; [reflexivity|]. left. split; [discriminate|reflexivity]. }
-  fold all. rewrite all_edges_ok. fold (declared_edges all).
-  destruct (sort_loop_spec orc Horc all Hnd (declared_edges all) (S (length all)) [] (declared_edges all))
-    as [done [edges [Es [HI HF]]]].
-  { apply Inv_init. } { simpl. lia. }
-  rewrite Es. destruct (Nat.eqb (length done) (length all)) eqn:El.
-  - apply Nat.eqb_eq in El. split; [reflexivity|]. split.
-    + eapply Inv_full_perm; eauto.
-    + intros a b Hab. eapply Inv_full_edges; eauto. apply (declared_edges_src all a b Hab).
-  - split; [reflexivity|]. right. auto.
+  destruct (get_callback lower cbs (cname c)) as [d|] eqn:Eg; [split; reflexivity|].
+  fold all. pose proof (sort_callbacks_spec all Hnd) as S.
+  destruct (sort_callbacks lower orc all) as [r|e].
+  - split; [reflexivity|apply S].
+  - split; [exact S|reflexivity].
 Qed.
 
-(* an edge set with a ranking (= acyclic) is never rejected *)
+(* an edge set with a ranking (= acyclic, in particular no self-reference) is never rejected *)
 Lemma add_callback_complete cbs c (rank : N -> nat) :
   NoDup (ids (cbs ++ [c])) ->
   get_callback lower cbs (cname c) = None ->
   (forall a b, In (a, b) (declared_edges (cbs ++ [c])) -> (rank a < rank b)%nat) ->
   snd (add_callback lower orc cbs c) = Ok tt.
 Proof.
-  intros Hnd Eg HR. unfold add_callback. rewrite Eg.
-  set (all := cbs ++ [c]) in *. rewrite all_edges_ok. fold (declared_edges all).
+  intros Hnd Eg HR. unfold add_callback, sort_callbacks. rewrite Eg.
+  set (all := cbs ++ [c]) in *. rewrite all_edges_cases.
+  destruct (existsb (selfref_b all) all) eqn:Es.
+  { exfalso. apply existsb_exists in Es as [x [Hx Hs]].
+    pose proof (HR _ _ (selfref_edge all x Hx Hs)). lia. }
+  fold (declared_edges all).
   destruct (sort_loop_spec orc Horc all Hnd (declared_edges all) (S (length all)) [] (declared_edges all))
-    as [done [edges [Es [HI HF]]]].
+    as [done [edges [Es' [HI HF]]]].
   { apply Inv_init. } { simpl. lia. }
-  rewrite Es.
+  rewrite Es'.
   assert (El : length done = length all).
   { eapply (Inv_ranked_full all Hnd (declared_edges all) done edges rank); eauto.
     intros a b Hab. split; [apply (declared_edges_src all a b Hab)|apply HR; exact Hab]. }
@@ -137,18 +160,27 @@ Proof.
   specialize (H _ _ Hab). lia.
 Qed.
 
-(* cyclic constraints: AssertionError, and the new callback stays appended, nothing sorted *)
+(* cyclic constraints (a self-reference is the closed walk of length 1): AssertionError, and the
+   callbacks list is left exactly as it was *)
 Lemma add_callback_cycle orc cbs c x :
   perm_oracle orc -> NoDup (ids (cbs ++ [c])) ->
-  get_callback lower cbs (cname c) = None ->
   walk (declared_edges (cbs ++ [c])) x x ->
-  add_callback lower orc cbs c = (cbs ++ [c], Raise AssertionError).
+  add_callback lower orc cbs c = (cbs, Raise AssertionError).
 Proof.
-  intros Horc Hnd Eg W. pose proof (add_callback_spec orc Horc cbs c Hnd) as S. simpl in S.
+  intros Horc Hnd W. pose proof (add_callback_spec orc Horc cbs c Hnd) as S. simpl in S.
   destruct (add_callback lower orc cbs c) as [r [u|e]].
   - exfalso. destruct S as [_ [_ Hed]].
     pose proof (walk_increasing _ (fun a => idx a (ids r)) Hed x x W). lia.
-  - destruct S as [-> [[Hne _]|[_ ->]]]; [congruence|reflexivity].
+  - destruct S as [-> ->]. reflexivity.
+Qed.
+
+Lemma add_callback_selfref orc cbs c :
+  perm_oracle orc -> NoDup (ids (cbs ++ [c])) ->
+  selfref_b (cbs ++ [c]) c = true ->
+  add_callback lower orc cbs c = (cbs, Raise AssertionError).
+Proof.
+  intros Horc Hnd Hs. apply (add_callback_cycle orc cbs c (cid c) Horc Hnd).
+  apply walk_one. apply selfref_edge; [apply in_or_app; right; left; reflexivity|exact Hs].
 Qed.
 
 (* acceptance does not depend on the oracle *)
@@ -185,30 +217,25 @@ Proof.
     specialize (Hed _ _ Hedge). simpl in Hed. rewrite N.eqb_refl in Hed. lia.
 Qed.
 
-(* a declared callBefore of a callback without self-reference *)
-Definition no_selfref (all : list cb) (c : cb) : bool :=
-  negb (mem (cid c) (resolve lower all (cbefore c)) || mem (cid c) (resolve lower all (cafter c))).
-
+(* declared callBefore / callAfter names that resolve to a registered callback are edges *)
 Lemma declared_before_edge all c n d :
-  In c all -> ckind c = 0%N -> no_selfref all c = true ->
+  In c all -> ckind c = 0%N ->
   In n (cbefore c) -> get_callback lower all n = Some d ->
   In (cid c, cid d) (declared_edges all).
 Proof.
-  intros Hc Hk Hs Hn Hg. unfold declared_edges. apply in_flat_map. exists c. split; [exact Hc|].
+  intros Hc Hk Hn Hg. unfold declared_edges. apply in_flat_map. exists c. split; [exact Hc|].
   unfold edges_pure, call_precedence. rewrite Hk. simpl.
-  unfold no_selfref in Hs. apply negb_true_iff in Hs. rewrite Hs. simpl.
   apply in_app_iff. right. apply in_map. unfold resolve. apply in_flat_map. exists n.
   split; [exact Hn|]. rewrite Hg. left; reflexivity.
 Qed.
 
 Lemma declared_after_edge all c n d :
-  In c all -> ckind c = 0%N -> no_selfref all c = true ->
+  In c all -> ckind c = 0%N ->
   In n (cafter c) -> get_callback lower all n = Some d ->
   In (cid d, cid c) (declared_edges all).
 Proof.
-  intros Hc Hk Hs Hn Hg. unfold declared_edges. apply in_flat_map. exists c. split; [exact Hc|].
+  intros Hc Hk Hn Hg. unfold declared_edges. apply in_flat_map. exists c. split; [exact Hc|].
   unfold edges_pure, call_precedence. rewrite Hk. simpl.
-  unfold no_selfref in Hs. apply negb_true_iff in Hs. rewrite Hs. simpl.
   apply in_app_iff. left. apply in_map_iff. exists (cid d). split; [reflexivity|].
   unfold resolve. apply in_flat_map. exists n.
   split; [exact Hn|]. rewrite Hg. left; reflexivity.
